@@ -29,9 +29,10 @@ class Parent:
         return SymBytes([Seg("opaque", "parent", sector * self.ss, count * self.ss)])
 
 
-def load():
+def load(real_cache=False):
     m = loader.load(SRC)
-    m.lru_cache = loader.identity_lru_cache
+    if not real_cache:
+        m.lru_cache = loader.identity_lru_cache
     m.c_vhdx = layouts.CStructProxy(m.c_vhdx)
     return m
 
@@ -46,7 +47,7 @@ def read_task(prop, cfg, tier, seed):
     has_parent = bool(cfg.get("has_parent"))
     via = cfg.get("via", "read_sectors")
     core.set_width(cfg.get("W", 72))
-    m = load()
+    m = load(real_cache=bool(cfg.get("prime")))
     ctx = Ctx(prop, "vhdx.read", cfg, tier, seed, engine_kw=dict(max_decisions=cfg.get("max_decisions", 600)))
     rng = random.Random(seed)
     touched = (max_count + spb - 1) // spb + 1
@@ -92,6 +93,9 @@ def read_task(prop, cfg, tier, seed):
             return spec.guest_byte(g, mi(model, bat_off), block_size, ss, mems["img"], ops.get("parent"))
 
         def call(mo):
+            if cfg.get("prime"):
+                return ["ops", [["read_sectors", mi(mo, vars_["prime_sector"]), mi(mo, vars_["prime_count"])],
+                                ["read_sectors", mi(mo, sector), mi(mo, count)]]]
             if via == "read_sectors":
                 return [via, mi(mo, sector), mi(mo, count)]
             return [via, mi(mo, sector) * ss, mi(mo, count) * ss]
@@ -101,14 +105,26 @@ def read_task(prop, cfg, tier, seed):
             params=lambda mo: dict(size=mi(mo, size), block_size=block_size, sector_size=ss, bat_offset=mi(mo, bat_off),
                                    has_parent=has_parent),
             call=call, total=lambda mo: mi(mo, explen), g0=lambda mo: mi(mo, sector) * ss, spec_at=spec_at, unit=ss,
-            extra_units=(block_size,), rng=rng, j=j, opaque=("parent",) if has_parent else (),
+            extra_units=(block_size,), rng=rng, maxlen=(lambda mo: mi(mo, count * ss)) if cfg.get("tail") else None, j=j, opaque=("parent",) if has_parent else (),
             prefer=[count * ss <= 16 * MB] if block_size <= 8 * MB else [])
+        if cfg.get("prime"):
+            # C08 lemma 3: an arbitrary earlier request on the same object (real lru_cache in place) must not change
+            # what this request returns
+            s1 = E.var("prime_sector", 0, (1 << 46) // ss)
+            c1 = E.var("prime_count", 1, cfg.get("prime_count", 1))
+            E.assume((s1 + c1) * ss <= size)
+            for k in range((cfg.get("prime_count", 1) + spb - 1) // spb + 1):
+                b = s1 // spb + k
+                e1 = files.word_at("img", bat_off + 8 * (b + b // cr), 8, "le")
+                E.assume(spec.valid_payload_state(e1 % 8, has_parent))
+            vars_.update(prime_sector=s1, prime_count=c1)
+            obj.read_sectors(s1, c1)
         if via == "read_sectors":
             res = obj.read_sectors(sector, count)
         else:
             res = obj._read(sector * ss, count * ss)
         sv = spec.guest_byte(sector * ss + j, bat_off, block_size, ss, mem, par)
-        bad = byte_obligation(res, j, explen, sv)
+        bad = byte_obligation(res, j, explen, sv, maxlen=count * ss if cfg.get("tail") else None)
         if has_parent:
             # the parent must only ever be asked for sectors inside the request
             for (ps, pc) in parent.calls:
